@@ -1,5 +1,7 @@
 import SteelVerif.C03.Props
 import SteelVerif.C03.GenInPlace
+import SteelVerif.C03.PropsVM
+import SteelVerif.C03.C05Link
 open SteelVerif.C03
 #print axioms inplace_refines_persistent
 #print axioms inplace_refines_persistent_from
@@ -15,3 +17,17 @@ open SteelVerif.C03
 #print axioms GenInPlace.all_classified
 #print axioms GenInPlace.fast_paths_exercised
 #print axioms GenInPlace.tests_are_strong_count_one
+#print axioms mach_refines
+#print axioms program_refines
+#print axioms program_inplace_eq_copy
+#print axioms program_views_eq
+#print axioms vm_refines
+#print axioms vm_refines_from
+#print axioms core_program_inplace_unobservable
+#print axioms threads_refine
+#print axioms vm_inplace_unsound_if_count_wrong
+#print axioms plan_upd_target
+#print axioms c05_unique_true_total_one
+#print axioms soundTest_of_c05
+#print axioms inplace_refines_persistent_c05
+#print axioms GenInPlace.stolen_args_match_model
